@@ -107,6 +107,7 @@ func (l *vSwL) set(accept bool) error {
 	}
 	return err
 }
+
 // the upstream finishes sending on every connection it holds (half-close); the connections stay open
 func (l *vSwL) halfCloseAll() {
 	l.mu.Lock()
@@ -198,8 +199,11 @@ type vHWorld struct {
 	cancel   context.CancelFunc
 	conns    []*vHConn
 	portPeer map[string]int
-	rawMC    []int // max_connections as configured, per upstream
-	ucc      int   // passive unhealthy_connection_count as configured
+	asyncWG  sync.WaitGroup
+	asyncMu  sync.Mutex
+	asyncEv  []vHEvent // events produced by "later" steps, merged into events in time order
+	rawMC    []int     // max_connections as configured, per upstream
+	ucc      int       // passive unhealthy_connection_count as configured
 }
 
 type vHConn struct {
@@ -463,8 +467,21 @@ func (w *vHWorld) specOut(ev []vHEvent, t int64, ui int) (out, limited bool) {
 // records the attempts of one Handle call as events; an attempt for which the selection policy returned
 // nothing is checked on the way: "retries go to another available upstream" - while an upstream is in
 // rotation, Select must not come back empty-handed
+func (w *vHWorld) takeAsync() []vHEvent {
+	w.asyncMu.Lock()
+	defer w.asyncMu.Unlock()
+	ev := w.asyncEv
+	w.asyncEv = nil
+	return ev
+}
+
 func (w *vHWorld) record(atts []vHAttempt) (cases [][3]string, fails [][2]string) {
+	async := w.takeAsync()
 	for _, a := range atts {
+		for len(async) > 0 && async[0].t <= a.t {
+			w.events = append(w.events, async[0])
+			async = async[1:]
+		}
 		switch {
 		case a.up < 0:
 			near := false
@@ -496,6 +513,7 @@ func (w *vHWorld) record(atts []vHAttempt) (cases [][3]string, fails [][2]string
 			w.events = append(w.events, vHEvent{t: a.t, kind: "open", a: a.up})
 		}
 	}
+	w.events = append(w.events, async...)
 	return
 }
 
@@ -712,10 +730,48 @@ func vRunHistory(spec vHSpec, script []string, seed uint64) (res vHResult) {
 		}
 		switch fs[0] {
 		case "conn":
-			atts, c, herr, _ := w.connect()
+			t0 := w.now()
+			atts, c, herr, retAtU := w.connect()
 			cs, fs := w.record(atts)
 			res.cases = append(res.cases, cs...)
 			res.fails = append(res.fails, fs...)
+			if len(atts) > 0 && !(herr != nil && strings.HasPrefix(herr.Error(), "harness:")) {
+				td, ti := spec.tryDur.Milliseconds(), spec.tryInt.Milliseconds()
+				cs, fs, _, _ := w.retryAnalysis(atts, c != nil && c.open, herr, retAtU, td, ti, "conn-retry/"+spec.policy)
+				res.cases = append(res.cases, cs...)
+				res.fails = append(res.fails, fs...)
+				if !(c != nil && c.open) && td > 0 {
+					// refused: no upstream may have come (back) into rotation while the retries were due
+					var cand []int64
+					for _, e := range w.events {
+						if e.kind == "fail" && w.counting() {
+							cand = append(cand, e.t+w.fd+vHMargin)
+						}
+						if e.kind == "close" {
+							cand = append(cand, e.t+5)
+						}
+					}
+					for _, tau := range cand {
+						if tau <= t0 || tau >= t0+td-ti-50 {
+							continue
+						}
+						var ev []vHEvent
+						for _, e := range w.events {
+							if e.t <= tau {
+								ev = append(ev, e)
+							}
+						}
+						for ui := range w.topo {
+							out, lim := w.specOut(ev, tau, ui)
+							if !out && !lim && w.firstRefusing(ui) < 0 {
+								res.fails = append(res.fails, [2]string{"C11:retry:not-retried-until-available",
+									fmt.Sprintf("the connection arrived at t=%d with try_duration %d ms and was refused although upstream %d was in rotation and accepting from t=%d on", t0, td, ui, tau)})
+								break
+							}
+						}
+					}
+				}
+			}
 			if c != nil && c.open {
 				served = append(served, c.up)
 				if out, _ := w.specOut(w.events[:len(w.events)-1], w.events[len(w.events)-1].t, c.up); out {
@@ -752,6 +808,26 @@ func vRunHistory(spec vHSpec, script []string, seed uint64) (res vHResult) {
 		case "probe":
 			if arg < len(w.lst) {
 				w.probe(arg)
+			}
+		case "later":
+			// later:<ms>:<step>:<arg> - the step happens by itself after <ms> (while a connection is waiting)
+			if len(fs) == 4 {
+				what := fs[2]
+				ua, _ := strconv.Atoi(fs[3])
+				w.asyncWG.Add(1)
+				go func(delay time.Duration) {
+					defer w.asyncWG.Done()
+					time.Sleep(delay)
+					if what == "unhold" && ua < len(w.topo) {
+						t := w.now()
+						for _, p := range w.topo[ua] {
+							_ = w.peerOf[p].countConn(-1)
+						}
+						w.asyncMu.Lock()
+						w.asyncEv = append(w.asyncEv, vHEvent{t: t, kind: "close", a: ua})
+						w.asyncMu.Unlock()
+					}
+				}(time.Duration(arg) * time.Millisecond)
 			}
 		case "halfclose":
 			// upstream arg has nothing more to send on its connections; they are still proxied (the client has
@@ -796,6 +872,14 @@ func vRunHistory(spec vHSpec, script []string, seed uint64) (res vHResult) {
 			}
 			if d := last - w.now(); d > 0 && w.counting() {
 				time.Sleep(time.Duration(d+5) * time.Millisecond)
+			}
+		}
+		if fs[0] != "later" {
+			// whatever was scheduled has happened by the time the counters are read
+			w.asyncWG.Wait()
+			if late := w.takeAsync(); len(late) > 0 {
+				w.events = append(w.events, late...)
+				sort.SliceStable(w.events, func(i, j int) bool { return w.events[i].t < w.events[j].t })
 			}
 		}
 		s := w.sample()
@@ -876,12 +960,23 @@ func vRunRetry(rs vRetrySpec) (res vHResult) {
 		res.err = "no attempt recorded"
 		return
 	}
+	ti, td := rs.tryInt.Milliseconds(), rs.tryDur.Milliseconds()
+	cs, fs, ts, result := w.retryAnalysis(atts, c != nil && c.open, herr, retAt, td, ti, fmt.Sprintf("retry/%s/%dup", rs.policy, rs.nUp))
+	_ = t0
+	res.cases = append(res.cases, cs...)
+	res.fails = append(res.fails, fs...)
+	res.desc["attempt_times_ms"] = ts
+	res.desc["result"] = result
+	return
+}
+
+// one Handle call seen as a run of the retry loop: the HRetry case for the model and the property text
+// on the attempt schedule and on the error returned
+func (w *vHWorld) retryAnalysis(atts []vHAttempt, proxied bool, herr error, retAt, td, ti int64, clsPrefix string) (cases [][3]string, fails [][2]string, ts []string, result int64) {
 	base := atts[0].t
 	baseU := atts[0].tu
-	_ = t0
-	ti, td := rs.tryInt.Milliseconds(), rs.tryDur.Milliseconds()
 	// the error Handle returned: which upstream's address it names (-1 = "no upstreams available")
-	result := int64(-2)
+	result = int64(-2)
 	lastDialErr := int64(-1)
 	if herr != nil {
 		result = -1
@@ -895,8 +990,7 @@ func vRunRetry(rs vRetrySpec) (res vHResult) {
 			}
 		}
 	}
-	var as, ts []string
-	proxied := c != nil && c.open
+	var as []string
 	for i, a := range atts {
 		ts = append(ts, cZ(a.tu-baseU))
 		kind, e := 2, int64(0)
@@ -920,15 +1014,13 @@ func vRunRetry(rs vRetrySpec) (res vHResult) {
 		}
 		as = append(as, fmt.Sprintf("A %d %s %s %s", kind, cZ(e), cZ(d), cZ(j)))
 	}
-	cls := fmt.Sprintf("retry/%s/%dup/attempts%d", rs.policy, rs.nUp, len(atts))
-	res.cases = append(res.cases, [3]string{fmt.Sprintf("HRetry %d %d [%s] [%s] %s", td*1000, ti*1000, strings.Join(as, "; "), strings.Join(ts, "; "), cZ(result)), cls, b2s1(len(atts) > 1)})
-	res.desc["attempt_times_ms"] = ts
-	res.desc["result"] = result
+	cls := fmt.Sprintf("%s/attempts%d", clsPrefix, len(atts))
+	cases = append(cases, [3]string{fmt.Sprintf("HRetry %d %d [%s] [%s] %s", td*1000, ti*1000, strings.Join(as, "; "), strings.Join(ts, "; "), cZ(result)), cls, b2s1(len(atts) > 1)})
 	// ---- property text ----
-	add := func(k, d string) { res.fails = append(res.fails, [2]string{k, d}) }
+	add := func(k, d string) { fails = append(fails, [2]string{k, d}) }
 	for i := 0; i+1 < len(atts); i++ {
 		gap := atts[i+1].t - atts[i].t
-		if gap < ti-2 || gap > ti+40 {
+		if gap < ti-2 || gap > ti+150 {
 			add("C11:retry:schedule", fmt.Sprintf("attempts %d and %d are %d ms apart, try_interval is %d ms", i, i+1, gap, ti))
 		}
 	}
@@ -1041,6 +1133,33 @@ func TestVerifC11(t *testing.T) {
 			spec.tryDur, spec.tryInt = 60*ms, 30*ms
 		}
 		addHist(spec, []string{"conn", "halfclose:0", "conn", "conn", "close:0", "conn", "close:0", "close:0", "close:0"})
+	}
+	// 4f. a connection that arrives while every upstream is out of rotation waits (retries every
+	// try_interval) and is handed over as soon as one returns: inside the failure window / at the limit
+	for _, pol := range []string{"first", "random", "random_choose", "least_conn", "round_robin", "ip_hash"} {
+		nup := 1
+		if pol == "random_choose" {
+			nup = 2
+		}
+		topo := make([][]bool, nup)
+		var fails, holds, laters []string
+		for u := range topo {
+			topo[u] = []bool{true}
+			fails = append(fails, fmt.Sprintf("fail:%d", u))
+			holds = append(holds, fmt.Sprintf("hold:%d", u))
+			laters = append(laters, fmt.Sprintf("later:%d:unhold:%d", 330-60*u, u))
+		}
+		addHist(vHSpec{topo: topo, passive: true, failDur: 350 * ms, maxFails: 1, tryDur: 800 * ms, tryInt: 30 * ms, policy: pol},
+			append(append([]string{}, fails...), "conn", "close:0", "conn", "close:0"))
+		mc := make([]int, nup)
+		for u := range mc {
+			mc[u] = 1
+		}
+		addHist(vHSpec{topo: topo, passive: false, maxConns: mc, tryDur: 800 * ms, tryInt: 30 * ms, policy: pol},
+			append(append(append([]string{}, holds...), laters...), "conn", "close:0"))
+		// refused for good: nothing returns within try_duration
+		addHist(vHSpec{topo: topo, passive: true, failDur: 900 * ms, maxFails: 1, tryDur: 150 * ms, tryInt: 30 * ms, policy: pol},
+			append(append([]string{}, fails...), "conn", "expire", "conn", "close:0"))
 	}
 	// 4d. fail-over under every shipped selection policy: the upstream listed first is out of rotation
 	// (remembered failure / failed active check / at its connection limit) and has the fewest open
